@@ -252,6 +252,15 @@ func execC17(c *vf.Ctx, d *vf.Driver, cs c17Case) {
 		}
 		c.TraceValidated()
 		got := fromWireInts(res)
+		if cs.Op == "bytes" {
+			// the composed model (reduce, then the byte-extraction phase) about which bytes_spec is proved
+			res2, err := d.Call("fe448.bytes", []vf.Wire{toWireInts(cs.A[:])}, nil)
+			if err != nil || fmt.Sprint(fromWireInts(res2)) != fmt.Sprint(implOut) {
+				c.Fail(vf.Violation{Kind: "correspondence", Class: "c17-translation-bytes-composed",
+					What: "composed Lean model of Bytes (reduce; byte extraction) and Go implementation disagree", Case: cs,
+					Observed: fmt.Sprint(implOut), Required: res2.Render()})
+			}
+		}
 		if fmt.Sprint(got) != fmt.Sprint(implOut) {
 			c.Fail(vf.Violation{Kind: "correspondence", Class: "c17-translation-" + cs.Op,
 				What: "regenerated Lean program and Go implementation disagree", Case: cs,
